@@ -1182,6 +1182,9 @@ class SE3(SO3):
         """
         if base.isvector(S, 6):
             return cls(base.trexp(base.getvector(S)), check=False)
+        elif base.ismatrix(S, (4, 4)):
+            # a single se(3) matrix, the documented first form (it was iterated row by row: ValueError)
+            return cls(base.trexp(S, check=check), check=False)
         else:
             return cls([base.trexp(s) for s in S], check=False)
             
